@@ -97,6 +97,14 @@ def directed():
         dict(B, kind='test', name='t4', deps=['t2', 't1']),
         dict(B, kind='test', name='t5', deps=['t3']),
         dict(B, kind='default', name='t6', deps=['t3'])])
+    # test_deps(): further members of the `tests` target
+    out.append([
+        dict(B, kind='step', name='t1', ins=[F('d1')]),
+        dict(B, kind='step', name='t2', ins=[F('s3'), T('t1')], nouts=2),
+        dict(B, kind='exe', name='t3', srcs=[F('s1')]),
+        dict(B, kind='test', name='t4', deps=['t3']),
+        dict(B, kind='tdeps', name='t5', deps=['t2']),
+        dict(B, kind='exe', name='t6', srcs=[F('s2')])])
     # copies and symbolic links of built files, and what consumes them
     for mode in ('copy', 'symlink'):
         out.append([
